@@ -895,3 +895,61 @@ def check_callee_save_dominates(rule, kind, root=None):
                 rule.bad("%s|%s|callee-save" % (kind, name), "%s %s calls %s only on a conditional path (`%r` can jump over it) but does not call ensure_callee_regs_saved() before its first instruction: the one-time backup of r12-r15 would be emitted inside the skipped region, and later call sites - which see the flag set - would restore registers that were never saved" % (kind, name, nm, skipping[0]), "%s:%d" % (p, node["ln"]))
     if n == 0:
         rule.ok("%s: no clause calls out on a conditional path" % kind, file=p)
+
+
+def check_nan_screens(rule, kind, root=None):
+    """where a clause must treat a NaN operand specially (the interval `rand` / `mix`: a NaN seed is not a seed), the
+    operand is tested with an unordered float compare of the register with itself followed by `jp` - every NaN, with
+    either sign bit and any payload, is then caught.  Comparing the bit pattern with one NaN encoding (an integer
+    `cmp` against `f32::NAN.to_bits()`) misses all the others: hardware invalid operations produce 0xffc00000,
+    and a negated NaN interval has the sign bit set."""
+    import struct as _struct
+
+    p = path_of(kind)
+    builders = M.load_builders(p, root)
+    for name in ("build_rand", "build_mix"):
+        b = builders.get(name)
+        if b is None:
+            rule.lost("x86_64 %s %s" % (kind, name))
+            continue
+        ins = stream(b, builders)
+        outp = out_param(b)
+        inputs = [n_ for (n_, ty) in b.params if ty == "u8" and n_ != outp]
+        # no comparison of bit patterns with a NaN encoding anywhere
+        bad = None
+        for x in ins:
+            if x.label is None and x.mnem in ("cmp", "test") and len(x.ops) == 2 and x.ops[1].kind == "imm":
+                t = x.ops[1].text.replace(" ", "")
+                k = None
+                if "NAN" in t:
+                    k = 0x7FC00000
+                else:
+                    c = _canon_const(_re.sub(r"(u32|i32|u8|i8)?as(i32|u32|i8|u8)$", "", t).strip("()"))
+                    try:
+                        k = int(c, 16)
+                    except ValueError:
+                        k = None
+                if k is not None and (k & 0x7F800000) == 0x7F800000 and (k & 0x007FFFFF):
+                    bad = x
+        if bad is not None:
+            rule.bad("%s|%s|nan-bits" % (kind, name), "x86_64 %s %s recognises NaN by comparing bits with one encoding (`%r`): NaNs with the sign bit set (0xffc00000 from an invalid operation, or a negated NaN interval) or another payload pass as ordinary values" % (kind, name, bad), "%s:%d" % (p, bad.ln))
+            continue
+        if kind != "interval":
+            rule.ok("x86_64 %s %s: no bit-pattern NaN test" % (kind, name), file=p, line=b.fn["ln"])
+            continue
+        # every operand is screened by `comiss x, x ; jp` before the hash is computed
+        first_mul = next((i for i, x in enumerate(ins) if x.label is None and x.mnem in ("imul", "vpmulld")), len(ins))
+        missing = []
+        for n_ in inputs:
+            ok_ = False
+            for i, x in enumerate(ins[:first_mul]):
+                if x.label is None and x.mnem in ("vcomiss", "comiss", "vucomiss", "ucomiss") and len(x.ops) == 2 and all(o.kind == "vec" and o.name == "T:%s" % n_ for o in x.ops):
+                    nxt = [y for y in ins[i + 1:i + 3] if y.label is None]
+                    if nxt and nxt[0].mnem == "jp":
+                        ok_ = True
+            if not ok_:
+                missing.append(n_)
+        if missing:
+            rule.bad("%s|%s|nan-screen|%s" % (kind, name, missing[0]), "x86_64 interval %s hashes `%s` without first testing it for NaN with an unordered self-compare (`vcomiss x, x; jp`): a NaN interval then seeds the hash like a value" % (name, missing[0]), "%s:%d" % (p, b.fn["ln"]))
+        else:
+            rule.ok("x86_64 interval %s screens every operand for NaN with an unordered self-compare" % name, file=p, line=b.fn["ln"])
